@@ -93,6 +93,7 @@ Theorem C08_refuted_plans_forgotten_first :
   let '(s1, answers) := run_lines Nat.eqb ex_pf ex_g (fun _ => true) s0 (declaration false [(6, [])] [7] [7; 7]) in
   decls2 s1 = [2; 6] /\ answers = [None; None; Some 2; None; Some 2; Some 2] /\ ex_g (ex_pf (decls2 s1) 7) 7 = 8.
 Proof. exact plan_first_refuted. Qed.
+Print Assumptions C08_refuted_plans_forgotten_first.
 
 Example C08_paths_forgotten_first_same_history :
   let s0 := fst (run_lines Nat.eqb ex_pf ex_g (fun _ => true) (MkS2 [] [] []) (declaration true [(2, [])] [] [7])) in
@@ -134,7 +135,36 @@ Theorem C08_refuted_reverse_ratio_kept :
   exists r r', let t := equate_keep (equate_keep [] 1 kx_a (17 # 10) kx_b) 1 kx_a (17018 # 10000) kx_b in
     tget t kx_a kx_b = Some r /\ tget t kx_b kx_a = Some r' /\ ~ r * r' == 1.
 Proof. exact keep_declared_reverse_refuted. Qed.
+Print Assumptions C08_refuted_reverse_ratio_kept.
 
 Example C08_redeclared_pair_reciprocal :
   Reciprocal (fold_left declare [(1, kx_a, 17 # 10, kx_b); (1, kx_a, 17018 # 10000, kx_b)] []).
 Proof. exact redeclared_pair_reciprocal. Qed.
+
+(* ---- rows registered by lookups ----
+   `_ratios` and `_offsets` are defaultdicts: a lookup of a unit that has no row registers an empty row for it (a refused conversion does).
+   The planner reads the tables only through their rows (per-run obligation Gen_rows.tables_read_through_rows: every occurrence of the two
+   names in the package is a subscript or the definition), and for such a planner registered rows are invisible: for ANY table, any units
+   registered in either table, any fuel and any query, the plan and the converted value (or the error) are those of the table without them.
+   `start in _ratios` (seeded change C08-17) is the question that does see them. *)
+From Measured Require Import Proofs.TableRows.
+
+Theorem C08_lookups_register_nothing_visible : forall bd t o ord fuel us vs m s e,
+  convert bd (register_all t us) ord (register_all o vs) fuel m s e = convert bd t ord o fuel m s e.
+Proof. exact lookups_register_nothing_visible_both. Qed.
+Print Assumptions C08_lookups_register_nothing_visible.
+
+Theorem C08_lookups_keep_plans : forall bd t ord offs fuel us s e,
+  plan_conversion bd (register_all t us) ord offs fuel s e = plan_conversion bd t ord offs fuel s e.
+Proof. exact lookups_keep_plans. Qed.
+Print Assumptions C08_lookups_keep_plans.
+
+Theorem C08_refuted_key_membership : exists t u, has_row (register_all t [u]) u <> has_row t u.
+Proof. exact key_membership_refuted. Qed.
+Print Assumptions C08_refuted_key_membership.
+
+(* non-vacuity: the two-unit table of C04's example with rows registered for two more units converts as before, to a value *)
+Example C08_registered_rows_nonvacuous :
+  exists v, convert [(1%positive, fone); (2%positive, fone)] (register_all (equate [] 1 kx_a 2 kx_b) [uone; kx_a])
+                    [(kx_a, [(1%N, 1%Z)]); (kx_b, [(2%N, 1%Z)])] [] 20 3 kx_a kx_b = COk v /\ v == 6.
+Proof. eexists. split; vm_compute; reflexivity. Qed.
